@@ -96,101 +96,14 @@ Fixpoint mbound (blind : bool) (r : reg) (V : vars) (e : mexpr) : res (meas * af
       c ←r conv_affine r (m_units x) u; z ←r meas_to r x u; Ok (z, babs_conv r (m_units x) u c X)
   end.
 
-(** ** the tree builder with the two deviations of [_build_eval_tree] as switches (the shared
-    Model/Eval.v mirrors the code as first found; /repo has since received two fix: commits).
+(** ** the tree builder with the two deviations of [_build_eval_tree] as switches: the shared
+    [Eval.build_p paren_any pow_exempt] (Model/Eval.v).
     [paren_any = true]: a parenthesised group after a value is attached by juxtaposition
       whatever the pending operator (F16); false: like a NUMBER/NAME, under the priority test.
     [pow_exempt = true]: "**" / "^" never end a pending operator — [1.0(1)**2] reads
       1.0 +/- (0.1**2); false: exempt only among operators of equal priority. *)
-Section Build2.
-  Context (paren_any pow_exempt : bool) (tbl : list (string * Z)) (toks : list tok).
-  Fixpoint go2 (fuel : nat) (index depth : nat) (prev : string) (result : option tree)
-    : res (tree * nat) :=
-    match fuel with
-    | O => Err EFuel
-    | S f =>
-      match tok_at toks index with
-      | None => Err EIndex
-      | Some cur =>
-        let tail (result' : option tree) (index' : nat) : res (tree * nat) :=
-          match tok_at toks index' with
-          | None => Err EIndex
-          | Some TEnd =>
-              if String.eqb prev "(" then Err EUnclosed
-              else match result' with None => Err EAssert | Some r => Ok (r, index') end
-          | Some _ =>
-              if Nat.leb (ntoks toks) (index' + 1) then Err EUnexpectedEnd
-              else go2 f (index' + 1) depth prev result'
-          end in
-        let group (k : tree → option tree) : res (tree * nat) :=
-          match go2 f (index + 1) 0 "(" None with
-          | Err e => Err e
-          | Ok (rt, index') =>
-              match tok_at toks index' with
-              | None => Err EIndex
-              | Some t => if negb (bool_decide (t = TOp ")")) then Err EWeird else tail (k rt) index'
-              end
-          end in
-        match cur with
-        | TOp ")" =>
-            if String.eqb prev "<none>" then Err EUnopened
-            else match result with
-                 | None => Err EAssert
-                 | Some r => if String.eqb prev "(" then Ok (r, index) else Ok (r, pred index)
-                 end
-        | TOp "(" =>
-            match result with
-            | Some r =>
-                if paren_any then group (λ rt, Some (Bin "" r rt))
-                else if Z.leb (prio_d tbl "") (prio_d tbl prev) then Ok (r, pred index)
-                else match go2 f index (depth + 1) "" None with
-                     | Err e => Err e
-                     | Ok (rt, index') => tail (Some (Bin "" r rt)) index'
-                     end
-            | None => group (λ rt, Some rt)
-            end
-        | TOp o =>
-            match prio tbl o with
-            | None => tail result index
-            | Some p =>
-                match result with
-                | Some r =>
-                    let pp := prio_d tbl prev in
-                    let is_pow := String.eqb o "**" || String.eqb o "^" in
-                    let ends := if pow_exempt then Z.leb p pp && negb is_pow
-                                else Z.ltb p pp || (Z.eqb p pp && negb is_pow) in
-                    if ends then Ok (r, pred index)
-                    else match go2 f (index + 1) (depth + 1) o None with
-                         | Err e => Err e
-                         | Ok (rt, index') => tail (Some (Bin o r rt)) index'
-                         end
-                | None =>
-                    match go2 f (index + 1) (depth + 1) "unary" None with
-                    | Err e => Err e
-                    | Ok (rt, index') => tail (Some (Un o rt)) index'
-                    end
-                end
-            end
-        | TNum _ | TName _ =>
-            match result with
-            | Some r =>
-                if Z.leb (prio_d tbl "") (prio_d tbl prev) then Ok (r, pred index)
-                else match go2 f index (depth + 1) "" None with
-                     | Err e => Err e
-                     | Ok (rt, index') => tail (Some (Bin "" r rt)) index'
-                     end
-            | None => tail (Some (Leaf cur)) index
-            end
-        | TOther | TEnd => tail result index
-        end
-      end
-    end.
-End Build2.
 Definition build2 (paren_any pow_exempt : bool) (tbl : list (string * Z)) (toks : list tok) : res tree :=
-  match go2 paren_any pow_exempt tbl toks (build_fuel toks) 0 0 "<none>" None with
-  | Ok (t, _) => Ok t
-  | Err e => Err e
-  end.
+  build_p paren_any pow_exempt tbl toks.
 
 (** ** observed results *)
 Inductive tokres := TROk (l : list utok) | TRErr (e : ecls).
